@@ -281,6 +281,8 @@ DELTAS = (0, 0, 0, 1, -1, 60, -60, 3600, -3600, 86400, -86400, 59, 86399,
 
 def make_cluster(rng, mode, exact=True):
     y = gen.rand_year(rng, -3000, 11000)
+    if rng.random() < 0.02:
+        y = gen.huge_year(rng)
     rd = gen.rand_rd(rng, mode, y, bias=0.7)
     v = rng.random()
     if v < 0.5:
